@@ -198,6 +198,12 @@ func newAuthWorld(env *core.Env, hosts []*regHost) *authWorld {
 			o.kind = "registry"
 		case w.realms[o.dest] != nil:
 			o.kind = "realm"
+			// The realm a challenge names is a URL. The same host name under another
+			// scheme is another port; only the step up from http to https on the same
+			// name stays with the same party for certain (and exposes nothing).
+			if ru, err := url.Parse(w.realms[o.dest].realmURL); err == nil && ru.Scheme != req.URL.Scheme && !(ru.Scheme == "http" && req.URL.Scheme == "https") {
+				o.kind = "foreign"
+			}
 		default:
 			o.kind = "foreign"
 		}
